@@ -216,7 +216,34 @@ class Func(object):
         return self._cd
 
     def guards(self, bid, transitive=True):
-        """set of (D, succ_index) the block is (transitively) control dependent on"""
+        """set of edges (D, succ_index) that every path from the entry to block bid must take ("dominating edges"):
+        the conditions on them are facts that hold whenever bid executes.  Computed from the dominator tree: for
+        each block S on bid's dominator chain, if S has exactly one predecessor that S does not dominate (i.e.
+        one forward predecessor D) reached by exactly one edge of D, then D->S is such an edge.  This treats the
+        if-form, the early-return/exit form, the switch form and the ?: form alike."""
+        idom = self.idom()
+        out = set()
+        if bid not in idom:
+            return out
+        s = bid
+        guard = 0
+        while guard < 100000:
+            guard += 1
+            fwd = [p for p in self.pred[s] if p in idom and not self.dominates_block(s, p)]
+            if len(set(fwd)) == 1:
+                d = fwd[0]
+                idxs = [i for i, t in enumerate(self.succ[d]) if t == s]
+                real = set(t for t in self.succ[d] if t >= 0)
+                if len(idxs) == 1 and len(real) >= 2:
+                    out.add((d, idxs[0]))
+            nxt = idom[s]
+            if nxt == s or not transitive:
+                break
+            s = nxt
+        return out
+
+    def control_dependence(self, bid):
+        """classic transitive control dependence (block may execute only if ...); NOT a set of facts"""
         cd = self.control_deps()
         out = set()
         work = [bid]
@@ -226,7 +253,7 @@ class Func(object):
             for (d, i) in cd.get(b, ()):
                 if (d, i) not in out:
                     out.add((d, i))
-                    if transitive and d not in seen:
+                    if d not in seen:
                         seen.add(d)
                         work.append(d)
         return out
@@ -255,7 +282,9 @@ class Func(object):
 
     def guard_conds(self, bid, expand=True):
         """facts (condition node, polarity) that hold whenever block bid executes; `a && b` true is expanded
-        to a true, b true; `a || b` false to a false, b false; `!a` flips."""
+        to a true, b true; `a || b` false to a false, b false; `!a` flips.  Besides single dominating edges this
+        recognises the join of a short-circuit chain: the then-block of `if (a || b)` has one predecessor per
+        disjunct, all evaluating sub-expressions of the same condition C, which gives the fact (C, true)."""
         out = []
         for (d, i) in self.guards(bid):
             ec = self.edge_cond(d, i)
@@ -264,6 +293,43 @@ class Func(object):
                     out.extend(self.expand_cond(ec[0], ec[1]))
                 else:
                     out.append(ec)
+        # short-circuit joins on the dominator chain
+        idom = self.idom()
+        s = bid
+        guard = 0
+        while s in idom and guard < 100000:
+            guard += 1
+            fwd = [p for p in self.pred[s] if p in idom and not self.dominates_block(s, p)]
+            if len(set(fwd)) > 1:
+                for t in set(fwd):
+                    term = self.blocks[t].get("term")
+                    if not term or term["k"] in ("&&", "||", "SwitchStmt") or "c" not in term or len(self.succ[t]) != 2:
+                        continue
+                    if self.succ[t][0] == self.succ[t][1]:
+                        continue
+                    pol = (self.succ[t][0] == s)
+                    sub = set(n["i"] for n in walk(self, term["c"]))
+                    ok = True
+                    for p in set(fwd):
+                        if p == t:
+                            continue
+                        pt = self.blocks[p].get("term")
+                        if not pt or pt["k"] not in ("&&", "||") or pt.get("c") not in sub:
+                            ok = False
+                            break
+                        # the short-circuit edge must carry the same truth value for the whole condition
+                        if pt["k"] == "||" and not (pol is True and self.succ[p][0] == s):
+                            ok = False
+                            break
+                        if pt["k"] == "&&" and not (pol is False and self.succ[p][1] == s):
+                            ok = False
+                            break
+                    if ok:
+                        out.extend(self.expand_cond(term["c"], pol) if expand else [(term["c"], pol)])
+            nxt = idom[s]
+            if nxt == s:
+                break
+            s = nxt
         return out
 
     def expand_cond(self, cn, pol, depth=0):
